@@ -2,6 +2,7 @@ import RPVerif.Lemmas.Exec
 import RPVerif.Model.Noop
 import RPVerif.Lemmas.WatchQueue
 import RPVerif.Lemmas.Timeout
+import RPVerif.Gen.Exec
 
 /-!
 # C07 — The executor finishes each task exactly once
@@ -429,5 +430,26 @@ theorem C07_deadline_enforced (w : TW) (now u ct : Nat) (hm : (u, ct) ∈ w.pend
 /-- test: 5 tasks launched in one burst, bulk limit 4: the fifth is looked at in the second pass -/
 example : (WatchQueue.run 4 {} [.enq [0, 1, 2, 3, 4], .pass []]).watching = [0, 1, 2, 3]
     ∧ (WatchQueue.run 4 {} [.enq [0, 1, 2, 3, 4], .pass [], .pass []]).watching = [0, 1, 2, 3, 4] := by decide
+
+/-! ### a launched task is never forgotten by the watcher (round 17) -/
+
+open RPVerif.WatchQueue in
+/-- **C07, never left behind at the hand-over**: with the order of `Popen._launch_task` as the translator reads it
+    (`Gen.procAttachedBeforeQueued`: the process handle is on the task before the task is queued for the watcher),
+    at whatever moment of the launch the watcher thread makes a pass, it never meets a queued task without its handle -
+    the case it takes for "finalised by the cancel path" and drops for good -/
+theorem C07_launched_task_never_dropped (i : Nat) :
+    (launchRun (withWatchAt (launchOrder Gen.procAttachedBeforeQueued) i)).dropped = false := by
+  have e : Gen.procAttachedBeforeQueued = true := by decide
+  rw [e]
+  match i with
+  | 0 => decide
+  | 1 => decide
+  | (k + 2) => simp [withWatchAt, launchOrder, launchRun, launchStep]
+
+open RPVerif.WatchQueue in
+/-- the order matters: queued first, a pass of the watcher between the two statements forgets the task -/
+theorem C07_launched_task_witness :
+    (launchRun (withWatchAt (launchOrder false) 1)).dropped = true := by decide
 
 end RPVerif.C07
